@@ -20,6 +20,18 @@ import (
 var boundedAlphabet = []string{
 	"/a", "/ab", "/a_", "/a%", "/A", "/é", "/a b", "/a.b",
 	"/a/x", "/ab/x", "/a_/x", "/a%/x", "/A/x", "/é/x", "/a b/x", "/a/x/y", "/a/a", "/a/ab", "/é/x/y",
+	"/a/a/a", "/a/x/a", "/a/x/a/y",
+}
+
+// boundedRelative: build the index the way a replay of the tape into an empty index does (root stored as "", every other
+// name relative to it) instead of the way the creating instance does (root "/", absolute names).
+var boundedRelative = false
+
+func storedName(n string) string {
+	if boundedRelative {
+		return strings.TrimPrefix(n, "/")
+	}
+	return n
 }
 
 type bRow struct {
@@ -43,7 +55,7 @@ func boundedPersister(t testing.TB, dir string, rows []bRow) *MetadataPersister 
 		if r.dir {
 			tf = int64('5')
 		}
-		if err := p.UpsertHeader(ctx, &config.Header{Name: r.name, Typeflag: tf, Record: int64(i), Lastknownrecord: int64(i), Paxrecords: "{}"}, true); err != nil {
+		if err := p.UpsertHeader(ctx, &config.Header{Name: r.name, Typeflag: tf, Record: int64(i), Lastknownrecord: int64(i), Paxrecords: "{}"}, !boundedRelative); err != nil {
 			t.Fatal(err)
 		}
 	}
@@ -128,32 +140,36 @@ func TestVerifBounded_GetHeaderChildren(t *testing.T) {
 	cases, bad := 0, 0
 	ctx := context.Background()
 	queries := append([]string{"/"}, boundedAlphabet...)
-	for _, view := range boundedViews(boundedMaxRows()) {
-		p := boundedPersister(t, dir, view)
-		for _, q := range queries {
-			got, err := p.GetHeaderChildren(ctx, q)
-			if err != nil {
-				fmt.Printf("BOUNDED-VIOLATION sql:GetHeaderChildren view=%v query=%q error=%v\n", view, q, err)
-				bad++
-				continue
-			}
-			var want []string
-			for _, r := range view {
-				if !r.deleted && properDescendant(q, r.name) {
-					want = append(want, r.name)
+	for _, rel := range []bool{false, true} {
+		boundedRelative = rel
+		for _, view := range boundedViews(boundedMaxRows()) {
+			p := boundedPersister(t, dir, view)
+			for _, q := range queries {
+				got, err := p.GetHeaderChildren(ctx, q)
+				if err != nil {
+					fmt.Printf("BOUNDED-VIOLATION sql:GetHeaderChildren view=%v query=%q error=%v\n", view, q, err)
+					bad++
+					continue
+				}
+				var want []string
+				for _, r := range view {
+					if !r.deleted && properDescendant(q, r.name) {
+						want = append(want, storedName(r.name))
+					}
+				}
+				sort.Strings(want)
+				cases++
+				if strings.Join(names(got), "|") != strings.Join(want, "|") {
+					if bad < 8 {
+						fmt.Printf("BOUNDED-VIOLATION sql:GetHeaderChildren relative-index=%v view=%v query=%q got=%q want=%q\n", rel, view, q, names(got), want)
+					}
+					bad++
 				}
 			}
-			sort.Strings(want)
-			cases++
-			if strings.Join(names(got), "|") != strings.Join(want, "|") {
-				if bad < 8 {
-					fmt.Printf("BOUNDED-VIOLATION sql:GetHeaderChildren view=%v query=%q got=%q want=%q\n", view, q, names(got), want)
-				}
-				bad++
-			}
+			p.sqlite.DB.Close()
 		}
-		p.sqlite.DB.Close()
 	}
+	boundedRelative = false
 	fmt.Printf("BOUNDED-OK sql:GetHeaderChildren cases=%d failing=%d maxrows=%d alphabet=%d\n", cases, bad, boundedMaxRows(), len(boundedAlphabet))
 	if bad > 0 {
 		t.Fail()
@@ -165,32 +181,36 @@ func TestVerifBounded_GetHeaderDirectChildren(t *testing.T) {
 	cases, bad := 0, 0
 	ctx := context.Background()
 	queries := append([]string{"/"}, boundedAlphabet...)
-	for _, view := range boundedViews(boundedMaxRows()) {
-		p := boundedPersister(t, dir, view)
-		for _, q := range queries {
-			got, err := p.GetHeaderDirectChildren(ctx, q, -1)
-			if err != nil {
-				fmt.Printf("BOUNDED-VIOLATION sql:GetHeaderDirectChildren view=%v query=%q error=%v\n", view, q, err)
-				bad++
-				continue
-			}
-			var want []string
-			for _, r := range view {
-				if !r.deleted && directChild(q, r.name) {
-					want = append(want, r.name)
+	for _, rel := range []bool{false, true} {
+		boundedRelative = rel
+		for _, view := range boundedViews(boundedMaxRows()) {
+			p := boundedPersister(t, dir, view)
+			for _, q := range queries {
+				got, err := p.GetHeaderDirectChildren(ctx, q, -1)
+				if err != nil {
+					fmt.Printf("BOUNDED-VIOLATION sql:GetHeaderDirectChildren view=%v query=%q error=%v\n", view, q, err)
+					bad++
+					continue
+				}
+				var want []string
+				for _, r := range view {
+					if !r.deleted && directChild(q, r.name) {
+						want = append(want, storedName(r.name))
+					}
+				}
+				sort.Strings(want)
+				cases++
+				if strings.Join(names(got), "|") != strings.Join(want, "|") {
+					if bad < 8 {
+						fmt.Printf("BOUNDED-VIOLATION sql:GetHeaderDirectChildren relative-index=%v view=%v query=%q got=%q want=%q\n", rel, view, q, names(got), want)
+					}
+					bad++
 				}
 			}
-			sort.Strings(want)
-			cases++
-			if strings.Join(names(got), "|") != strings.Join(want, "|") {
-				if bad < 8 {
-					fmt.Printf("BOUNDED-VIOLATION sql:GetHeaderDirectChildren view=%v query=%q got=%q want=%q\n", view, q, names(got), want)
-				}
-				bad++
-			}
+			p.sqlite.DB.Close()
 		}
-		p.sqlite.DB.Close()
 	}
+	boundedRelative = false
 	fmt.Printf("BOUNDED-OK sql:GetHeaderDirectChildren cases=%d failing=%d maxrows=%d alphabet=%d\n", cases, bad, boundedMaxRows(), len(boundedAlphabet))
 	if bad > 0 {
 		t.Fail()
@@ -264,6 +284,72 @@ func TestVerifBounded_MoveHeader(t *testing.T) {
 		}
 	}
 	fmt.Printf("BOUNDED-OK sql:MoveHeader cases=%d failing=%d maxrows=%d alphabet=%d\n", cases, bad, boundedMaxRows(), len(moveAlphabet))
+	if bad > 0 {
+		t.Fail()
+	}
+}
+
+// Links: stfs stores a symlink as a row whose name is the target and whose linkname is the link's own path. A directory
+// listing must show the link under its own path with the attributes a lookup of the link reports (the target's), in an
+// index built by the creating instance as well as in one rebuilt by replay (relative names).
+func TestVerifBounded_LinkListing(t *testing.T) {
+	dir := t.TempDir()
+	cases, bad := 0, 0
+	ctx := context.Background()
+	type sc struct{ target, link string }
+	for _, rel := range []bool{false, true} {
+		boundedRelative = rel
+		for _, c := range []sc{{"/t", "/l"}, {"/a/t", "/l"}, {"/t", "/a/l"}, {"/a/t", "/a/l"}, {"/a/x/t", "/a/l"}, {"/a_/t", "/a%/l"}} {
+			p := NewMetadataPersister(filepath.Join(dir, "i.sqlite"))
+			if err := p.Open(); err != nil {
+				t.Fatal(err)
+			}
+			if err := p.PurgeAllHeaders(ctx); err != nil {
+				t.Fatal(err)
+			}
+			rows := []*config.Header{{Name: "/", Typeflag: '5'}}
+			for _, d := range []string{"/a", "/a/x", "/a_", "/a%"} {
+				rows = append(rows, &config.Header{Name: d, Typeflag: '5'})
+			}
+			rows = append(rows, &config.Header{Name: c.target, Typeflag: '0', Size: 6}, &config.Header{Name: c.target, Linkname: c.link, Typeflag: '2'})
+			for i, r := range rows {
+				r.Record, r.Lastknownrecord, r.Paxrecords = int64(i), int64(i), "{}"
+				if err := p.UpsertHeader(ctx, r, !rel); err != nil {
+					t.Fatal(err)
+				}
+			}
+			if _, err := p.GetRootPath(ctx); err != nil {
+				t.Fatal(err)
+			}
+			cases++
+			parent := filepath.Dir(c.link)
+			if _, err := p.GetHeaderByLinkname(ctx, c.link); err != nil {
+				fmt.Printf("BOUNDED-VIOLATION sql:LinkListing relative-index=%v target=%q link=%q: lookup of the link by its path fails: %v\n", rel, c.target, c.link, err)
+				bad++
+			}
+			got, err := p.GetHeaderDirectChildren(ctx, parent, -1)
+			if err != nil {
+				t.Fatal(err)
+			}
+			found := 0
+			for _, h := range got {
+				if h.Name == storedName(c.link) {
+					found++
+					if h.Typeflag != '0' || h.Size != 6 {
+						fmt.Printf("BOUNDED-VIOLATION sql:LinkListing relative-index=%v target=%q link=%q: listing %q shows the link with typeflag %q size %d, a lookup shows the target's ('0', 6)\n", rel, c.target, c.link, parent, rune(h.Typeflag), h.Size)
+						bad++
+					}
+				}
+			}
+			if found != 1 {
+				fmt.Printf("BOUNDED-VIOLATION sql:LinkListing relative-index=%v target=%q link=%q: listing %q contains the link %d times: %q\n", rel, c.target, c.link, parent, found, names(got))
+				bad++
+			}
+			p.sqlite.DB.Close()
+		}
+	}
+	boundedRelative = false
+	fmt.Printf("BOUNDED-OK sql:LinkListing cases=%d failing=%d\n", cases, bad)
 	if bad > 0 {
 		t.Fail()
 	}
